@@ -258,7 +258,10 @@ def check(prop, tier):
 
     # ---- 1-3: builds, under the lock
     with BuildLock():
-        failed, updated, ex_out = step_extract(cfg.get("gen", []))
+        # every Gen file is regenerated (the driver links all of them); only failures of the
+        # extractors this property's theorems consume count against its translator tie
+        failed_all, updated, ex_out = step_extract([])
+        failed = [f for f in failed_all if f[0] in cfg.get("gen", [])]
         translator_ok = not failed
         for name, why in failed:
             notes.append("translator: extractor %s failed (%s); committed Gen file kept, "
@@ -485,7 +488,7 @@ def replay(path):
     open(req, "w").write("".join(r + "\n" for r in reqs))
     prof = data.get("profile") or cfg.get("profiles", ["dev"])[0]
     with BuildLock():
-        step_extract(cfg.get("gen", []))
+        step_extract([])
         step_lake(["msidriver"])
         step_cargo(prof)
     real = os.path.join(work, "real.txt")
